@@ -54,7 +54,8 @@ func (rt *runtime) newRegExpObject(pattern string, flags string) *object {
 
 	re2pattern, err := parser.TransformRegExp(pattern)
 	if err != nil {
-		panic(rt.panicTypeError("Invalid regular expression: %s", err.Error()))
+		// 15.10.4.1: a pattern that is not a Pattern is a SyntaxError
+		panic(rt.panicSyntaxError("Invalid regular expression: %s", err.Error()))
 	}
 	if len(re2flags) > 0 {
 		re2pattern = fmt.Sprintf("(?%s:%s)", re2flags, re2pattern)
